@@ -100,6 +100,21 @@ def archives(ctx, rnd, cb):
                         if lv == 1:
                             h[1] = sum(h[2:2 + h[0]]) & 0xff
                         res.append((bytes(h) + b"abc" + bytes(rnd.choice([0, 3, 40])), "ext-boundary"))
+    # 5. archives as the reader test generates them: nested directories, safe and dangerous links, members of Mac archives
+    #    (with a MacBinary header, without, and with data that ends before the 128-byte header), wrong CRC / length /
+    #    method, truncations
+    try:
+        import test_rdr as T
+        drv = cb.compile("drv_rdr", [os.path.join(common.CDIR, "drv_rdr.c")] + cb.lib_sources(), extra=["-I" + common.CDIR], sanitize=True)
+        pool = T.Pool(cb, [drv], rnd)
+        for _ in range(n_each // 2):
+            a, ms = T.random_archive(pool, rnd) if rnd.random() < 0.7 else T.tree_archive(pool, rnd)
+            res.append((a, "reader-shaped"))
+        for v in ("short", "short", "valid", "plainfile", "tiny", "badcrc"):
+            for lv in (1, 2, 3):
+                res.append((T.archive([T.mac_member(rnd, b"m", v, lv), T.mac_member(rnd, b"n", "valid", lv)]), "reader-shaped"))
+    except Exception as e:
+        ctx.notes.append("reader-shaped archives not generated: %r" % (e,))
     return res
 
 
@@ -162,9 +177,9 @@ def run(ctx):
                              "observed": ab, "exit": rc, "sig": "toolcrash:" + ab[:60],
                              "how_to_replay": "write archive_hex to a.lzh; lha %s a.lzh (sanitizer build)" % " ".join(mode)})
         cov = {"evaluations": len(lines) + len(jobs), "distinct_nontrivial": nontriv + len(jobs),
-               "rule": "four archive streams (unstructured bytes with plausible signatures; mutations of the repository's archives: "
+               "rule": "five archive streams (unstructured bytes with plausible signatures; mutations of the repository's archives: "
                        "bit flips, overwrites, deletions, insertions, truncations; generated multi-member archives with one length field "
-                       "set to 0, min-1, +-1, max, 1 MiB(+1); level 1-3 extended-header chains with the length field of every link set to 0 .. field size + 3 and to the remaining size -1/0/+1/+field size, followed by each known header type), each (a) iterated through the library with the four stream kinds and "
+                       "set to 0, min-1, +-1, max, 1 MiB(+1); level 1-3 extended-header chains with the length field of every link set to 0 .. field size + 3 and to the remaining size -1/0/+1/+field size, followed by each known header type; archives of the reader test's generators: directories, links, Mac members incl. ones whose data ends before the MacBinary header, damaged members), each (a) iterated through the library with the four stream kinds and "
                        "compared with the model, (b) given to the sanitizer build of the tool in one of the modes l v lv vv t p xn x "
                        "xq2f e as uid 65534 in a scratch directory. non-trivial = archive that yields at least one header / a tool run",
                "distribution": dict(dist), "samples": [lines[0][:160], lines[len(lines) // 2][:160], lines[-1][:160]]}
